@@ -578,3 +578,17 @@ func ZzC08MPEG1VideoInd() {
 	zzCover("error returned", err != nil)
 }
 ''')
+
+# ---------------------------------------------------------------- hostile-only decoders (no encoder-side harness yet)
+_FRAG_INV = '''
+func zzInv(d *Decoder) bool {
+	n := 0
+	for _, f := range d.fragments {
+		n += len(f)
+	}
+	return zzAnd(n == d.fragmentsSize, d.fragmentsSize <= %s)
+}
+'''
+codec("rtpmpeg1audio", "MPEG1Audio", kind="units", enc_pt="", gen=("C08H",), p08=12, k08=2, cap="4096", inv=_FRAG_INV % "4096")
+codec("rtpac3", "AC3", kind="units", gen=("C08H",), p08=12, k08=2, cap="8192", inv=_FRAG_INV % "8192")
+codec("rtpmjpeg", "MJPEG", enc_pt="", gen=("C08H",), p08=14, k08=2, cap="(1 << 24) + 65536", inv=_FRAG_INV % "(1<<24)+65536")
